@@ -252,14 +252,19 @@ func c10Config() world.Config {
 		{Denom: "aaa", Weight: "1", Min: "0", Max: "5", TakeRate: "0", ChangeRate: "0.5", ChangeInterval: 4 * U},
 		{Denom: "bbb", Weight: "0.5", Min: "0", Max: "5", TakeRate: "0"},
 		{Denom: "ccc", Weight: "2", Min: "0", Max: "5", TakeRate: "0", StartOffset: 4 * U},
+		// a denom of another length: a validator's share list is sorted by denom (aaa, aaaa, bbb), the asset store by length
+		// first (aaa, bbb, ccc, aaaa)
+		{Denom: "aaaa", Weight: "0.3", Min: "0", Max: "5", TakeRate: "0"},
 	}
 	cfg.DelFunds["ccc"] = "1000000000000"
+	cfg.DelFunds["aaaa"] = "1000000000000"
 	return cfg
 }
 
 var c10Seed = []world.Op{
 	{K: world.KNDelegate, D: 99, V: 1, Amt: "500000"}, // uneven native stake
 	opDel(0, 0, "aaa", "1000000"), opDel(1, 1, "aaa", "500000"), opDel(1, 0, "bbb", "1000000"), opDel(2, 1, "ccc", "1000000"),
+	opDel(2, 0, "aaaa", "700000"),
 	opBlock(1),
 }
 
